@@ -547,6 +547,10 @@ pub struct InferenceCtx<'a, F: EvalComptimeFn> {
     generics_arena: &'a mut Arena<ComptimeResult>,
     call_associated_generics: FxHashMap<(ConcreteLoc, Idx<hir::Expr>), ComptimeArgs>,
     inferred_stmts: FxHashSet<(ConcreteLoc, Idx<hir::Stmt>)>,
+    /// these two are filled while the statements of a body get inferred, so just like
+    /// `inferred_stmts` they have to survive the interruptions of that inference
+    expected_tys: FxHashMap<ConcreteLoc, ArenaMap<Idx<hir::Expr>, ExprExpected>>,
+    local_usages: FxHashMap<ConcreteLoc, ArenaMap<Idx<hir::LocalDef>, FxHashSet<Idx<hir::Stmt>>>>,
     diagnostics: Vec<TyDiagnostic>,
     eval_comptime: F,
 }
@@ -570,6 +574,8 @@ impl<'a, F: EvalComptimeFn> InferenceCtx<'a, F> {
             all_finished_locations: Default::default(),
             to_infer: Default::default(),
             inferred_stmts: Default::default(),
+            expected_tys: Default::default(),
+            local_usages: Default::default(),
             eval_comptime,
         }
     }
@@ -733,8 +739,8 @@ impl<'a, F: EvalComptimeFn> InferenceCtx<'a, F> {
                     world_bodies: self.world_bodies,
                     bodies: &self.world_bodies[todo_loc.file()],
                     interner: self.interner,
-                    expected_tys: Default::default(),
-                    local_usages: Default::default(),
+                    expected_tys: self.expected_tys.entry(todo_loc).or_default(),
+                    local_usages: self.local_usages.entry(todo_loc).or_default(),
                     generics_arena: self.generics_arena,
                     call_associated_generics: &mut self.call_associated_generics,
                     tys: &mut self.tys,
@@ -885,8 +891,8 @@ impl<'a, F: EvalComptimeFn> InferenceCtx<'a, F> {
             world_bodies: self.world_bodies,
             bodies: &self.world_bodies[global.file()],
             interner: self.interner,
-            expected_tys: Default::default(),
-            local_usages: Default::default(),
+            expected_tys: self.expected_tys.entry(global.wrap()).or_default(),
+            local_usages: self.local_usages.entry(global.wrap()).or_default(),
             generics_arena: &mut self.generics_arena,
             call_associated_generics: &mut self.call_associated_generics,
             inferred_stmts: &mut self.inferred_stmts,
@@ -1037,8 +1043,8 @@ impl<'a, F: EvalComptimeFn> InferenceCtx<'a, F> {
                     world_bodies: self.world_bodies,
                     bodies: &self.world_bodies[lambda_loc.file()],
                     interner: self.interner,
-                    expected_tys: Default::default(),
-                    local_usages: Default::default(),
+                    expected_tys: self.expected_tys.entry(lambda_loc.wrap()).or_default(),
+                    local_usages: self.local_usages.entry(lambda_loc.wrap()).or_default(),
                     generics_arena: &mut self.generics_arena,
                     call_associated_generics: &mut self.call_associated_generics,
                     inferred_stmts: &mut self.inferred_stmts,
